@@ -313,15 +313,15 @@ func richChain(rng *rand.Rand, conf ConfSpec) (ops []Op, targets []target) {
 // apex depth is drawn per group (root, top-level domain, two labels, four
 // labels), with the failing questions 1 to 3 labels below that apex:
 //
-//	1. a question fails (RFC 9520 state; miss witness: the denial state of the
-//	   moment)                                         -> failure-denied-later
-//	2. a validated denial for the zone is admitted whose NSEC range covers the
-//	   name that failed (first snapshot of the zone)
-//	3. two more questions fail under that snapshot: one inside the range of a
-//	   SECOND denial, one outside every range
-//	4. (2 in 3) the second denial is admitted: the zone's snapshot is REPLACED
-//	   -> failure-denied-by-replacement / failure-witness-replaced; otherwise the
-//	   witnesses keep holding -> failure-witness-depth
+//  1. a question fails (RFC 9520 state; miss witness: the denial state of the
+//     moment)                                         -> failure-denied-later
+//  2. a validated denial for the zone is admitted whose NSEC range covers the
+//     name that failed (first snapshot of the zone)
+//  3. two more questions fail under that snapshot: one inside the range of a
+//     SECOND denial, one outside every range
+//  4. (2 in 3) the second denial is admitted: the zone's snapshot is REPLACED
+//     -> failure-denied-by-replacement / failure-witness-replaced; otherwise the
+//     witnesses keep holding -> failure-witness-depth
 //
 // While a denial covers a name with a live cached failure, both entries must
 // answer from the denial (the decoded ladder consults RFC 8198 before RFC
